@@ -443,6 +443,22 @@ for _p in ("C09", "C11"):
     CLAIMS[_p]["text"] += RUNNER_NOTE
 
 
+def _exec_tie():
+    import translated
+    return translated.exec_tie()
+
+
+CLAIMS["C01"]["ties"] = (_exec_tie,)
+CLAIMS["C01"]["technique"] += " + source-to-Gallina translator tie for the decision kernels of Market._execution (regenerated and re-proved every run)"
+CLAIMS["C01"]["text"] += (" Translator tie (harness/py2coq_exec.py): the three decision kernels inside the loop of Market._execution - the test that stops the walk, the volume of a "
+                          "fill, and the statement that decides the round's price and appends the matched pair - are REGENERATED from /repo's source on every run and "
+                          "coq/translated/ExecC01Proofs.v is re-checked against the generated text: the walk stops exactly where the model's crossing test fails (both limit orders and "
+                          "bid < ask), the volume is the minimum of the two residuals, and the price decision is the model's choose_price (a market order leaves the price to the limit "
+                          "side, two market orders leave it unchanged, between two limit orders the earlier accepted - accept time, then id - decides), the pair being appended exactly "
+                          "once; equal ids at equal times and missing ids are refused. The loop around them (heap pops, residual volumes, the pending list) is the hand-written "
+                          "Match.walk, tied by the correspondence.")
+
+
 def _index_tie():
     import translated
     return translated.index_tie()
